@@ -222,6 +222,8 @@ def run_native(c, ref, params, fields):
         call = lambda: fn(**copy.deepcopy(params))  # noqa: E731
     try:
         r = call()
+        if getattr(c, "generator_as_list", False):
+            r = list(r)  # a generator function under contract is verified as run to exhaustion in one go (interp.run_function)
         exc = None
     except AttributeError as e:
         if obj is not None and any(f"'{k}'" in str(e) for k in c.self_shape.fields if k not in fields):
@@ -309,7 +311,7 @@ def _symbolic_case(c, ref, params, fields, res, exc, after):
     x.inline = ()
     x.loops = {}
     x.bv_width = c.bv_width
-    for hook in ("missing_field", "call_real", "comprehension", "make_self", "observe"):
+    for hook in ("missing_field", "call_real", "comprehension", "make_self", "observe", "generator_as_list"):
         if hasattr(c, hook):
             setattr(x, hook, getattr(c, hook))
 
